@@ -10,8 +10,20 @@
   (BTrue) (BFail) (BCut) (BPred (pid Int)) (BCutIf (lbl Int))
   (BConj (cl Body) (cr Body)) (BDisj (dl Body) (dr Body))
   (BIfThen (ic Body) (ia Body)) (BNeg (np Body)))))
+; source terms (AST classes of yp_prolog_visitor) and the constructor-call expressions emitted for them
+(declare-datatypes ((TA 0) (TAL 0)) (
+  ((TAAtom (taval String)) (TAVar (tavname String)) (TAFun (tafname String) (tafargs TAL)) (TANum (tanum String))
+   (TAListT (taitems TAL)) (TAPair (tahead TA) (tatail TA)))
+  ((tanil) (tacons (tahd TA) (tatl TAL)))))
+(declare-datatypes ((CE 0) (CEL 0)) (
+  ((CEAtom (ceval String)) (CEVar (cevname String)) (CEFun (cefname String) (cefargs CEL)) (CEVal (cenum String))
+   (CEMakeList (ceitems CEL)) (CENil) (CEPair (cehead CE) (cetail CE)))
+  ((cenil) (cecons (cehd CE) (cetl CEL)))))
 (declare-datatypes ((Stmt 0) (Code 0)) ((
-  (SYieldF) (SYieldT) (SReturn) (SForeach (fg Body) (fc Code)) (SBlock (bl Int) (bc Code)) (SBreak (brl Int)))
+  (SYieldF) (SYieldT) (SReturn) (SForeach (fg Body) (fc Code)) (SBlock (bl Int) (bc Code)) (SBreak (brl Int))
+  (SAlias (al String) (ar String))                     ; <source variable> = argN
+  (SDecl (dv String))                                  ; <variable> = variable()
+  (SUnify (uv String) (ue CE) (uc Code)))              ; for lN in unify(<argN>, <expr>): <code>
   ((cnil) (ccons (chd Stmt) (ctl Code)))))
 (declare-fun yieldB () Beh) (declare-fun failB () Beh) (declare-fun cutB () Beh)
 (declare-fun exitB (Int) Beh)
@@ -98,3 +110,41 @@
      :pattern ((semb (BDisj a b))))))
 (assert (forall ((c Body) (t Body)) (! (= (semb (BIfThen c t)) (iteB (semb c) (semb t) failB)) :pattern ((semb (BIfThen c t))))))
 (assert (forall ((a Body)) (! (= (semb (BNeg a)) (negB (semb a))) :pattern ((semb (BNeg a))))))
+
+; ---------------------------------------------------------------------------------------------
+; Clause heads (C01): which head arguments are aliased to argN, which are unified, in which order
+; ---------------------------------------------------------------------------------------------
+(define-fun-rec talen ((l TAL)) Int (ite ((_ is tanil) l) 0 (+ 1 (talen (tatl l)))))
+(assert (forall ((l TAL)) (! (>= (talen l) 0) :pattern ((talen l)))))            ; by induction (as L-LEN-NONNEG)
+(define-fun-rec tanth ((l TAL) (i Int)) TA (ite (<= i 0) (tahd l) (tanth (tatl l) (- i 1))))
+; the expression emitted for a source term
+(define-funs-rec ((cexpr ((t TA)) CE) (cexprl ((l TAL)) CEL))
+ ((ite ((_ is TAAtom) t) (CEAtom (taval t))
+  (ite ((_ is TAVar) t) (CEVar (tavname t))
+  (ite ((_ is TAFun) t) (CEFun (tafname t) (cexprl (tafargs t)))
+  (ite ((_ is TANum) t) (CEVal (tanum t))
+  (ite ((_ is TAListT) t) (ite ((_ is tanil) (taitems t)) CENil (CEMakeList (cexprl (taitems t))))
+       (CEPair (cexpr (tahead t)) (cexpr (tatail t))))))))
+  (ite ((_ is tanil) l) cenil (cecons (cexpr (tahd l)) (cexprl (tatl l))))))
+; number of positions j < k whose argument is the plain variable n
+(define-fun-rec cnt ((a TAL) (n String) (k Int)) Int
+  (ite (<= k 0) 0 (+ (cnt a n (- k 1)) (ite (= (tanth a (- k 1)) (TAVar n)) 1 0))))
+; L-CNT (proved by induction in vf/lemmas.py): counts are natural numbers; a position holding the variable is counted
+(assert (forall ((a TAL) (n String) (k Int)) (! (>= (cnt a n k) 0) :pattern ((cnt a n k)))))
+(assert (forall ((a TAL) (n String) (k Int) (j Int)) (! (=> (and (<= 0 j) (< j k) (= (tanth a j) (TAVar n))) (>= (cnt a n k) 1))
+   :pattern ((cnt a n k) (tanth a j)))))
+; position j is UNIFIED (not aliased): its argument is not a plain variable, or that variable occurs at more than one position
+(define-fun unified ((a TAL) (j Int)) Bool
+  (not (and ((_ is TAVar) (tanth a j)) (= (cnt a (tavname (tanth a j)) (talen a)) 1))))
+(define-fun argname ((i Int)) String (str.++ "arg" (str.from_int (+ i 1))))
+; alias assignments for the aliased positions < k, in position order (index form)
+(define-fun-rec aliases ((a TAL) (k Int)) Code
+  (ite (<= k 0) cnil
+       (capp (aliases a (- k 1))
+             (ite (unified a (- k 1)) cnil (ccons (SAlias (tavname (tanth a (- k 1))) (argname (- k 1))) cnil)))))
+; unification loops for the unified positions >= j, position j outermost, the body innermost
+(define-fun-rec wrap ((a TAL) (j Int) (body Code)) Code
+  (ite (>= j (talen a)) body
+       (ite (unified a j)
+            (ccons (SUnify (argname j) (cexpr (tanth a j)) (wrap a (+ j 1) body)) cnil)
+            (wrap a (+ j 1) body))))
